@@ -62,11 +62,13 @@ OBJ_CLASSES = {
     'SCFG': {'graph': 'dict[name,block]', 'name_gen': 'NameGenerator', 'region': 'RegionRef'},
     'NameGenerator': {'kinds': 'dict[name,int]'},
     'RegionRef': {'kind': 'name', 'name': 'name'},
+    'ConcealedRegionView': {'scfg': 'SCFG'},
     'FlowInfo': {'block_offsets': 'set[int]', 'jump_insts': 'dict[int,list[int]]', 'last_offset': 'int'},
     'WBlock': {'name': 'name', 'instructions': 'list[int]', 'jump_targets': 'list[name]', 'last_kind': 'int'},
 }
 OBJ_MODULE = {
     'SCFG': 'numba_scfg.core.datastructures.scfg',
     'NameGenerator': 'numba_scfg.core.datastructures.scfg',
+    'ConcealedRegionView': 'numba_scfg.core.datastructures.scfg',
     'FlowInfo': 'numba_scfg.core.datastructures.flow_info',
 }
